@@ -17,6 +17,8 @@ import (
 type CaseOpts struct {
 	Adapter bool
 	ALines  []mem.Line
+	// LateAdapter: NewEnforcer(model) then SetAdapter (only with an empty store)
+	LateAdapter bool
 	Watcher string // "", plain, ex, upd, exupd
 	// OraUniverse: string values over which oracle tables of the used built-ins are tabulated
 	OraUniverse []string
@@ -146,6 +148,13 @@ func StartCase(c *Ctx, ms *MSpec, o CaseOpts) *Sess {
 			s.D, err = casbin.NewDistributedEnforcer(m, s.A)
 			if err == nil {
 				e = s.D.SyncedEnforcer.Enforcer
+			}
+		} else if o.LateAdapter && len(o.ALines) == 0 {
+			// built from the model alone, the (empty) store attached afterwards: nothing was ever loaded.  The
+			// state is the one an initial load of the empty store leaves, so the model's header is the same
+			e, err = casbin.NewEnforcer(m)
+			if err == nil {
+				e.SetAdapter(s.A)
 			}
 		} else {
 			e, err = casbin.NewEnforcer(m, s.A)
